@@ -82,12 +82,12 @@ def refinement_case(c, quick, tol=None):
     smooth toy PDFs: deviations from the finest grid stay within calibrated bounds and shrink under refinement"""
     bounds = dict(coarse=3e-2, medium=5e-4, medium_degree3=5e-3)      # measured on the unchanged tree: 7e-3, 5e-5, 1e-3
     setups = [("coarse", make_grid(12, 8), 4), ("medium", make_grid(30, 20), 4), ("medium_degree3", make_grid(30, 20), 3), ("fine", make_grid(50, 30), 4)]
-    xs = [0.003, 0.03, 0.2, 0.5]
+    xs = c.get("xs") or [0.003, 0.03, 0.2, 0.5]
     name = c["kind"] + "_total"
     proj = "neutrino" if c["proc"] == "CC" else "electron"
     vals = {}
     for label, grid, deg in setups:
-        out = runs.run(cards.theory_card(PTO=c["pto"], PTODIS=c["pto"]),
+        out = runs.run(cards.theory_card(PTO=c["pto"], PTODIS=c["pto"], TMC=c.get("tmc", 0), MP=0.938),
                        cards.obs_card({name: [dict(x=x, Q2=c["Q2"]) for x in xs]}, prDIS=c["proc"], ProjectileDIS=proj, xgrid=grid, degree=deg, is_log=True))
         vals[label] = [[contract(r, grid, (o, 0, 0, 0)) for o in range(c["pto"] + 1)] for r in out[name]]
     probs = []
@@ -108,10 +108,12 @@ def refinement_case(c, quick, tol=None):
 
 def patrol(chk, n_disp, n_ref):
     bad, dist, crashed = 0, {}, {}
-    for it in range(n_disp + n_ref):
-        c = gen_case(chk.rng, chk.tier == "quick")
+    # target-mass corrections integrate over the grid once more: one such case is always part of the refinement comparison
+    fixed_ref = [dict(proc="EM", kind="F2", pto=0, Q2=2.0, seed=0, tmc=1, xs=[0.3, 0.6]), dict(proc="EM", kind="F2", pto=0, Q2=5.0, seed=1, tmc=3, xs=[0.25, 0.5])]
+    for it in range(n_disp + n_ref + len(fixed_ref)):
+        c = fixed_ref[it - n_disp - n_ref] if it >= n_disp + n_ref else gen_case(chk.rng, chk.tier == "quick")
         which = "displaced" if it < n_disp else "refinement"
-        k = "%s/%s/%s/pto%d" % (which, c["proc"], c["kind"], c["pto"])
+        k = "%s/%s/%s/pto%d%s" % (which, c["proc"], c["kind"], c["pto"], "/TMC%d" % c["tmc"] if c.get("tmc") else "")
         dist[k] = dist.get(k, 0) + 1
         try:
             probs = displaced_case(c) if which == "displaced" else refinement_case(c, chk.tier == "quick")
@@ -130,7 +132,7 @@ def patrol(chk, n_disp, n_ref):
                 chk.violation("refinement:%s:%s:pto%d" % (c["proc"], c["kind"], c["pto"]),
                               "%s_total (%s, PTO %d, Q2=%r) contracted with smooth toy PDFs at x=%r, order %d: %s: %.2e (bound %.1e): %s"
                               % (c["kind"], c["proc"], c["pto"], c["Q2"], p["x"], p["order"], p["what"], p["rel"], p["tol"], p["values"]), dict(kind="refinement", case=c, problem=p))
-    chk.patrol["grid_stability"] = dict(cases=n_disp + n_ref, failures=bad, distribution=dist, crashed_not_counted=crashed,
+    chk.patrol["grid_stability"] = dict(cases=n_disp + n_ref + len(fixed_ref), failures=bad, distribution=dist, crashed_not_counted=crashed,
                                         rule="real runs: (a) x exactly on the lowest / an inner grid node vs x(1 +- 1e-8) in the same run, every tensor entry within 1e-5; "
                                              "(b) the same points on make_grid(12,8), (30,20), (50,30) with degree 4 and (30,20) with degree 3, contracted with smooth toy PDFs: deviation from "
                                              "the finest grid within 3e-2 / 5e-4 / 5e-3 (measured 7e-3 / 5e-5 / 1e-3) and not growing under refinement — calibrated, a test of the "
